@@ -187,16 +187,28 @@ class HttpSource(Source[Union[str,Iterable[str]]]):
         else:
             decomp = lambda x: x
 
+        def check_complete(decomp, any_content):
+            #A compressed body that simply stops (no length was announced and the connection was closed early) can only
+            #be told from a complete one by the decompressor not having reached the end of its stream.
+            if any_content and encoding in ['gzip','deflate'] and not decomp.__self__.eof:
+                raise EOFError("Compressed content ended before the end-of-stream marker was reached.")
+
         if not chunk:
             with bites as b:
-                return decomp(b.read()).decode(charset)
+                content = b.read()
+                text    = decomp(content).decode(charset)
+                check_complete(decomp, bool(content))
+                return text
         else:
             def chunks(decomp,charset,size,bites):
                 #we decode incrementally because a chunk can end in the middle of a multi-byte character
                 decode = codecs.getincrementaldecoder(charset)().decode
+                any_content = False
                 with bites as b:
                     while chunk := b.read(size):
+                        any_content = True
                         yield decode(decomp(chunk))
+                    check_complete(decomp, any_content)
                     #when the connection is closed before Content-Length bytes have arrived read(size) simply
                     #returns b'' (only read() without a size raises) so we have to look for this ourselves.
                     if getattr(b,'length',None): raise IncompleteRead(b'',b.length)
